@@ -428,9 +428,59 @@ def updated_with_missing():
     return out
 
 
+def generic_states_with_aliases():
+    """Re-validation on update and insensitivity to later mutation for *generic* states whose attributes are written with the
+    library's own parametrized alias (`frozenlist[...]`) around the class's type parameter - directly and nested in another
+    generic (`frozenlist[Sequence[Cell]]`): the specialisation's argument reaches every level."""
+    from collections.abc import Sequence
+    from haiway import frozenlist
+    out = []
+
+    class Table[Cell](State):
+        rows: frozenlist[Sequence[Cell]]
+        head: frozenlist[Cell] = ()
+
+    class Box[Item](State):
+        items: Sequence[frozenlist[Item]] = ()
+    T = Table[int]
+    good = T(rows=[[1, 2], [3]], head=[7])
+    for label, make in (("Table[int](rows=[['x']])", lambda: T(rows=[["x"]])),
+                        ("Table[int](rows=[[1]]).updated(rows=[['not', 'ints']])", lambda: good.updated(rows=[["not", "ints"]])),
+                        ("Table[int](rows=[[1]]).updated(head=['x'])", lambda: good.updated(head=["x"])),
+                        ("Table[int](...).__replace__(rows=[[1.5]])", lambda: good.__replace__(rows=[[1.5]])),
+                        ("Box[int](items=[['x']])", lambda: Box[int](items=[["x"]])),
+                        ("Box[int]().updated(items=[[1], ['x']])", lambda: Box[int]().updated(items=[[1], ["x"]]))):
+        try:
+            made = make()
+            out.append(f"{label} was accepted ({made}): the value does not conform to the specialised attribute type")
+        except Exception:  # noqa
+            pass
+    if (good.rows, good.head) != (((1, 2), (3,)), (7,)):
+        out.append(f"a rejected update changed the original: {good}")
+    try:
+        inner = [1, 2]
+        row = [inner, [3]]
+        arg = [row]
+        t2 = Table[Sequence[int]](rows=arg)
+        before, snapshot = str(t2), t2.updated()
+        inner.append(99)
+        row.append([4])
+        arg.append([[5]])
+        if str(t2) != before or t2 != snapshot:
+            out.append(f"Table[Sequence[int]]: mutating the lists passed to the constructor changed the instance: {before} -> {t2}")
+        b = Box[Sequence[int]](items=[[inner]])
+        before = str(b)
+        inner.append(100)
+        if str(b) != before:
+            out.append(f"Box[Sequence[int]]: mutating the lists passed to the constructor changed the instance: {before} -> {b}")
+    except Exception as e:  # noqa
+        out.append(f"conforming nested sequences were rejected by a specialised generic state: {e!r}")
+    return out
+
+
 def main():
     sys.stdin.read()
-    p = problems() or repeated_validation() or nested_unions() or nested_in_mapping() or updated_with_missing()
+    p = problems() or repeated_validation() or nested_unions() or nested_in_mapping() or updated_with_missing() or generic_states_with_aliases()
     if p:
         print(json.dumps(dict(reproduced=True, detail=dict(problems=p[:5]), cases_tried=1)))
     else:
